@@ -246,6 +246,15 @@ def run(tier: str, seed: int, t0: float) -> int:
               "<li>x</li>", "<td>x</td>", "x<p>y</p>z", "<p><code>a</code></p>", "<h1><code>a</code></h1>", "<blockquote><pre><code>x</code></pre></blockquote>",
               "<ol start=\"3\"><li><p>x</p></li></ol>", "<p>a&amp;b &lt; c</p>", "<a href=\"x&quot;y\">l</a>"]:
         ev_parse(b, sch, s, "hand")
+    # shaped documents beyond the token bound: a single space between an inline node that is not text and the text after it
+    em_ = sch.marks["em"].create()
+    img_ = sch.node("image", {"src": "s"})
+    br_ = sch.node("hard_break")
+    T_ = lambda c, *ms: sch.text(c, list(ms))                  # noqa: E731
+    for kids in ([img_, T_(" a cat")], [T_("x"), img_, T_(" y")], [br_, T_(" z")], [img_.mark([em_]), T_(" b"), img_, T_(" c", em_)],
+                 [T_("a "), img_, T_(" b "), img_], [T_("x", em_), T_(" y")]):
+        ev_doc(b, sch, sch.node("doc", None, [sch.node("paragraph", None, kids)]))
+        ev_doc(b, sch, sch.node("doc", None, [sch.node("heading", {"level": 2}, kids)]))
     jobs.append(("Trace_Dom", b, "G dom[test]", {"dom": dom, "markattrs": markattrs_table(b.docs)}))
     # ---- T: random bundled documents
     for name in ("basic", "test"):
